@@ -72,6 +72,7 @@ class Module:
         self.functions = {}   # name -> FuncInfo
         self.classes = {}     # name -> ClassInfo
         self.lines = src.splitlines()
+        self.star_imports = []
 
 
 class ClassTable:
@@ -118,7 +119,10 @@ class ClassTable:
                 pkg = mod.name.rsplit('.', 1)[0] + '.' if ('.' in mod.name and node.level == 1) else ''
                 src = pkg + src if node.level == 1 else src
             for a in node.names:
-                mod.imports[a.asname or a.name] = ('from', src, a.name)
+                if a.name == '*':
+                    mod.star_imports.append(src[len('supvisors.'):] if src.startswith('supvisors.') else src)
+                else:
+                    mod.imports[a.asname or a.name] = ('from', src, a.name)
         elif isinstance(node, ast.Assign):
             for t in node.targets:
                 if isinstance(t, ast.Name):
@@ -294,6 +298,11 @@ class ClassTable:
             if name in mod.classes or name in mod.functions or name in mod.assigns:
                 return modname, name
             imp = mod.imports.get(name)
+            if imp is None:
+                for sm in mod.star_imports:
+                    m2 = self.modules.get(sm)
+                    if m2 is not None and (name in m2.classes or name in m2.functions or name in m2.assigns):
+                        return sm, name
             if imp and imp[0] == 'from':
                 src = imp[1]
                 if src.startswith('supvisors.'):
